@@ -16,6 +16,7 @@ RULE = ("(i) identities curl(grad f)=0 and div(curl F)=0 with generic undefined 
         "e_polar) as this core orders them, must equal the library's cylindrical/spherical result at random points; (iii) fields "
         "with k<3 components (depending on all coordinates) equal the zero-padded field, 4 components refused by curl. "
         "non-trivial = field depends on all three coordinates; distinct = distinct field.")
+RULE = RULE + ' (iv) sparse fields given by their local components (uniform, single-coordinate, absent coordinates) against a numeric Cartesian reference: F_i(q(p)) e_i(q(p)) with own transforms, differentiated with mpmath.diff at 30 digits and projected on the local basis.'
 ASSUMPTIONS = ["vf/geom_ref.py local bases; sympy.diff for the Cartesian reference operators"]
 N = {"quick": 32, "thorough": 416}
 MIN_REACH = {"quick": {"identity": 6, "gradient_compared": 100, "divergence_compared": 100, "curl_compared": 100, "padding": 60, "refusal": 3, "sparse_compared": 500, "uniform_local_components": 60},
